@@ -26,6 +26,7 @@ fn models(tier: Tier) -> Vec<Model> {
             v.extend(gen::m7(0).into_iter().step_by(1));
             v.extend(gen::m10(0));
             v.extend(gen::m11(0));
+            v.extend(gen::m12(0));
         }
         Tier::Thorough => {
             v.extend(gen::m1(1));
@@ -36,6 +37,7 @@ fn models(tier: Tier) -> Vec<Model> {
             v.extend(gen::m7(1).into_iter().step_by(1));
             v.extend(gen::m10(1));
             v.extend(gen::m11(1));
+            v.extend(gen::m12(1));
         }
     }
     // half-reified constraints must not tighten anything while the literal is free: a stride of
